@@ -53,7 +53,7 @@ def run(tier):
         "rule": "real SystemClockLoop driven by replay from a fresh object: every sequence to depth %d over per-config time "
                 "advances {1, 999, timeout+-1, initial, 2*initial+1, syncPeriod (ms), 65000} x reference outcomes {not ready, "
                 "valid new, valid same, invalid} (outcomes pruned only when the reference's own log shows readiness was not "
-                "consulted in that step), 18 (syncPeriod, initialPeriod, timeout, wiring) configurations; plus seeded random "
+                "consulted in that step), 26 (syncPeriod, initialPeriod, timeout, wiring, response values: ordinary / first value 0, 1, -1 / all negative / alternating ends of the 32-bit range) configurations; plus seeded random "
                 "walks of 3000 steps incl. random configurations. Monitors: applied-immediately, backup write, no change "
                 "on invalid/timeout (shadow SystemClock fed only valid responses), retry lower bound from the statement's "
                 "period sequence, bounded progress, quiet without reference. distinct = distinct enumerated input prefixes; "
